@@ -988,7 +988,7 @@ class Twist3(SMTwist):
         - ``s * X`` performs elementwise multiplication of the elements of ``X`` by ``s``
         """
         if base.isscalar(left):
-            return Twist3(self.S * left)
+            return Twist3(right.S * left)
         else:
             raise ValueError('Twist3 *, incorrect left operand')
 
